@@ -31,7 +31,7 @@ class GC(Generic[TC]):
     pass
 
 
-LIT_VALUES = {"i0": 0, "i1": 1, "bF": False, "bT": True, "s_a": "a", "s_b": "b", "none": None}
+LIT_VALUES = {"i0": 0, "i1": 1, "bF": False, "bT": True, "s_a": "a", "s_b": "b", "none": None, "s_1": "1"}
 LEAVES = {"int": int, "str": str, "bool": bool, "bytes": bytes, "None": None, "Any": Any, "G": G, "GB": GB, "GC": GC}
 
 
